@@ -24,6 +24,7 @@ import (
 	"os"
 	"os/exec"
 	"regexp"
+	"runtime"
 	"strconv"
 	"strings"
 	"sync"
@@ -512,7 +513,11 @@ func runRound(sp spec) (res result) {
 	}
 	n := sp.ns + sp.nd
 	rng := rand.New(rand.NewSource(sp.jseed))
-	srv, err := newServer(sp.jseed, 150+rng.Intn(400), sp.mech != "")
+	// schedule diversity from the seed: number of OS threads running goroutines and the jitter regime
+	procs := []int{1, 2, 4, 8, 16, 16}[rng.Intn(6)]
+	runtime.GOMAXPROCS(procs)
+	jmax := []int{0, 60, 150 + rng.Intn(400), 150 + rng.Intn(400), 1500}[rng.Intn(5)]
+	srv, err := newServer(sp.jseed, jmax, sp.mech != "")
 	if err != nil {
 		fail("harness-listen", "%v", err)
 		res.observable = "HARNESS-ERROR"
@@ -842,6 +847,17 @@ func genCases(r *hx.Run) []hx.Case {
 		kind := "mixed"
 		if r.Rng.Intn(5) < 3 { // 60 % of the generated rounds run with SMTP auth configured
 			kind = fmt.Sprintf("mixed:%s:%d", mechs[r.Rng.Intn(len(mechs))], r.Rng.Intn(2))
+		}
+		if r.Tier == "thorough" && kind != "mixed" {
+			// schedule search on the auth rounds: mostly DialAndSend-only shapes with many goroutines
+			n = []int{16, 24, 32, 48, 64, 64}[r.Rng.Intn(6)]
+			if r.Rng.Intn(3) != 0 {
+				ns = 0
+			} else if ns > n {
+				ns = n
+			} else if ns > 0 && ns < n {
+				ns = 1 + r.Rng.Intn(n-1)
+			}
 		}
 		if k < len(fixed) {
 			n, ns, kind = fixed[k].n, fixed[k].ns, fixed[k].kind
